@@ -127,7 +127,7 @@ func wConfig(prop, tier string) *Config {
 			cfg.Phases = []Phase{{Name: "full-depth2", Roots: roots01, Ops: ops, Depth: 2, Dev: 2}}
 		}
 	case "C02":
-		ops := []string{"create_pool_lp1", "join_p1_all_t1", "join_p1_single_usdc_t1", "join_p1_single_atom_dust_t2", "join_p2_all_t1", "exit_p1_10pct_lp1", "exit_p1_single_atom_lp1", "exit_p1_all_t1", "exit_p2_all_t1", "exit_p1_all_lp1", "unbond_lp2_all", "exit_p2_allbut1_lp1", "exit_p2_all_lp1", "exit_p1_1share_lp1",
+		ops := []string{"create_pool_lp1", "join_p1_all_t1", "join_p1_single_usdc_t1", "join_p1_single_atom_dust_t2", "join_p2_all_t1", "exit_p1_10pct_lp1", "exit_p1_single_atom_lp1", "exit_p1_all_t1", "exit_p2_all_t1", "exit_p1_all_lp1", "unbond_lp2_all", "join_p2_single_usdc_t1_inflated_quote", "join_p2_all_t1_quote_plus1", "join_p2_big_t1", "exit_p2_allbut1_lp1", "exit_p2_all_lp1", "exit_p1_1share_lp1",
 			"llp_open_t1_x3", "llp_open_t1_x2_again", "llp_open_t2_x5", "llp_close_half_t1", "llp_close_full_t1", "llp_bot_close_all", "llp_claim_t1", "mc_claim_lp1", "price_atom_2", "price_atom_1", "price_atom_12", "swap_in_p1_usdc_atom_L", "gap_1d"}
 		cfg.Oracles = []*Oracle{OracleC02()}
 		if thorough {
@@ -206,7 +206,7 @@ func wConfig(prop, tier string) *Config {
 		ops := []string{"swap_in_p1_usdc_atom_L", "swap_out_p2_elys_usdc_L", "swap_fail_minout_p1", "join_p1_all_t1", "join_p2_all_t1", "exit_p1_10pct_lp1", "exit_p2_half_lp1", "exit_p2_all_t1", "create_pool_lp1",
 			"perp_open_long_t1", "perp_open_short_t2", "perp_close_full_t1", "perp_bot_close_all", "llp_open_t1_x3", "llp_close_full_t1", "llp_bot_close_all", "bond_lp1_L", "unbond_lp2_half", "unbond_lp2_all",
 			"mc_claim_lp1", "commit_eden_lp1", "vest_eden_lp1", "cancel_vest_lp1", "claim_vesting_lp1", "vest_now_lp1", "stake_elys_lp1", "unstake_elys_lp1", "estaking_withdraw_lp1", "send_elys_to_burn_addr",
-			"fee_tx_uatom", "fee_tx_uelys", "price_atom_2", "price_atom_1", "price_atom_12", "gap_1h", "gap_1d", "gap_30d", "nofeed", "empty", "vest_liquid_uatom_lp1", "cfg_vestinfo_uatom", "estaking_withdraw_reward_lp1", "estaking_withdraw_elys_rewards_lp1", "stake_eden_lp1", "unstake_eden_lp1"}
+			"fee_tx_uatom", "fee_tx_uelys", "price_atom_2", "price_atom_1", "price_atom_12", "gap_1h", "gap_1d", "gap_30d", "nofeed", "empty", "vest_liquid_uatom_lp1", "cfg_vestinfo_uatom", "estaking_withdraw_reward_lp1", "estaking_withdraw_elys_rewards_lp1", "stake_eden_lp1", "unstake_eden_lp1", "join_p2_single_usdc_t1_inflated_quote", "join_p2_all_t1_quote_plus1"}
 		cfg.Oracles = []*Oracle{OracleC15Supply(), OracleC15()}
 		if thorough {
 			cfg.Phases = []Phase{{Name: "full-depth3", Roots: []string{"R0", "R1", "R2", "R5", "R10"}, Ops: ops, Depth: 3, Dev: 3}}
